@@ -99,7 +99,7 @@ func NewAppA() (*AppA, error) {
 	var genAccs []authtypes.GenesisAccount
 	var balances []banktypes.Balance
 	total := sdk.NewCoins()
-	for i := 0; i < NumAccounts; i++ {
+	for i := 0; i < len(Addrs); i++ {
 		genAccs = append(genAccs, authtypes.NewBaseAccount(Addrs[i], PrivKey(i).PubKey(), uint64(i), 0))
 		coins := sdk.Coins{}
 		for _, d := range AllDenoms {
@@ -136,7 +136,7 @@ func NewAppA() (*AppA, error) {
 	}
 	x := &AppA{TxCfg: authtx.NewTxConfig(cdc, authtx.DefaultSignModes), Height: 0, Now: T0, seq: map[int]uint64{}, accNum: map[int]uint64{}, db: db, appOpts: appOptions}
 	x.B = &Base{App: a, K: a.FundraisingKeeper, DistrAddr: authtypes.NewModuleAddress(distrtypes.ModuleName), GovAddr: authtypes.NewModuleAddress("gov").String()}
-	for i := 0; i < NumAccounts; i++ {
+	for i := 0; i < len(Addrs); i++ {
 		x.accNum[i] = uint64(i)
 	}
 	// one empty block so that the genesis state is committed
@@ -190,7 +190,7 @@ func txSigner(o Op) int {
 	if o.SignerStr != "" {
 		return AddrIndex(o.SignerStr)
 	}
-	if o.Signer < 0 || o.Signer >= NumAccounts {
+	if o.Signer < 0 || o.Signer >= len(Addrs) {
 		return -1
 	}
 	return o.Signer
